@@ -16,6 +16,8 @@ from ipaddress import (
 from typing import Protocol
 from urllib.parse import urlparse
 
+from ..utils.url import canonical_path
+
 
 class Middleware(Protocol):
     """Protocol for middleware components."""
@@ -342,7 +344,10 @@ class CertificateAuth:
         """
         try:
             parsed = urlparse(request_url)
-            return parsed.path or "/"
+            # Rules are matched against the canonical location, so that other
+            # spellings of a protected path (//private/, /./private/, /%70rivate/)
+            # cannot slip past the rule that covers it
+            return canonical_path(parsed.path or "/")
         except Exception:
             return "/"
 
@@ -357,6 +362,9 @@ class CertificateAuth:
         """
         for rule in self.config.path_rules:
             if path.startswith(rule.prefix):
+                return rule
+            # "/private" is the directory that the prefix "/private/" protects
+            if rule.prefix.endswith("/") and path == rule.prefix[:-1]:
                 return rule
         return None
 
